@@ -195,10 +195,55 @@ def lint_part(ctx, fr):
     fr.distribution['lint_sources'] = len(cases)
 
 
+WAYS_SRC = r"""
+import deal, socket, sys, itertools
+__name__ = "c04_ways_probe"
+def probe():
+    # every way of making the effect, not only the plainest one: a socket from scratch, from a descriptor, a pair; print / write / writelines
+    bad = []
+    a, b = socket.socketpair()
+    try:
+        ways = {
+            "socket": [lambda: socket.socket().close(), lambda: socket.socket(socket.AF_INET, socket.SOCK_STREAM).close(),
+                       lambda: socket.socket(fileno=a.fileno()).detach(), lambda: socket.fromfd(a.fileno(), socket.AF_UNIX, socket.SOCK_STREAM).close(),
+                       lambda: [s.close() for s in socket.socketpair()]],
+            "stdout": [lambda: print("", end=""), lambda: sys.stdout.write(""), lambda: sys.stdout.writelines([""]), lambda: print("", end="", file=sys.stdout)],
+            "stderr": [lambda: sys.stderr.write(""), lambda: print("", end="", file=sys.stderr), lambda: sys.stderr.writelines([""])],
+        }
+        covers = {"socket": {"io", "network", "socket"}, "stdout": {"io", "print", "stdout"}, "stderr": {"io", "stderr"}}
+        sets = [(), ("stdout",), ("stderr",), ("network",), ("socket",), ("print",), ("io",), ("stdout", "stderr"), ("custom",), ("global", "import")]
+        for markers in sets:
+            for kind, fs in ways.items():
+                for i, way in enumerate(fs):
+                    @deal.has(*markers)
+                    def f(): way(); return "done"
+                    try: got = f()
+                    except deal.MarkerError as e: got = type(e).__name__
+                    except BaseException as e: got = "exc:" + type(e).__name__
+                    allowed = bool(set(markers) & covers[kind])
+                    want = "done" if allowed else ("OfflineContractError" if kind == "socket" else "SilentContractError")
+                    if got != want: bad.append([list(markers), kind, i, got, want])
+    finally:
+        a.close(); b.close()
+    return bad
+"""
+
+
+def ways_part(ctx, fr):
+    r = impl.run_impl('pyexec.py', {'src': WAYS_SRC, 'calls': [['probe', []]]})[0]
+    fr.evaluations += 120; fr.add_nontrivial({'ways_probe': 1})
+    fr.samples.append({'family': 'ways of making an effect', 'deviations': r})
+    if isinstance(r, dict): fr.errors.append('C04 ways probe failed: ' + str(r)[:400])
+    elif r:
+        fr.violations.append({'scenario': {'family': 'ways', 'case': r[0]}, 'impl': r[:6], 'signature': None,
+                              'what': f'[markers, effect, way, observed, expected] = {r[0]}: the effect is blocked iff no covering marker is declared, whichever way it is made'})
+
+
 _me = sys.modules[__name__]
 def run(ctx, fr, model_available=True):
     base_scn.run(_me, ctx, fr, model_available)
     table_part(ctx, fr, model_available)
     lint_part(ctx, fr)
+    ways_part(ctx, fr)
 def search(ctx, fr, model_available=True): return base_scn.search(_me, ctx, fr, model_available)
 classify = base_scn.classify
